@@ -19,6 +19,12 @@ CLAIMED = {
 CLAIMED["C16"] = dict(engine="E1", technique="CBMC function contracts on extracted C text, enforced per function (isnan/isfinite checked against fpclassify's contract); complete over all 2^32/2^64/2^80 bit patterns",
     text="Proof over every float, double and x87 long double bit pattern: fpclassify equals the IEEE-754 field definition and CBMC's own isnan/isinf/isnormal (float, double), and for the 80-bit format equals the 12-row class table read from the platform libc at check time; isnan/isfinite are the matching predicates. -ffast-math independence rests on a supporting static fact (no floating-point operation in the bodies).",
     note=TB_E1 + " long double is verified on its {uint64,uint16} x87 image (bit_cast assumed = object representation); compiler correctness under -ffast-math for integer-only code is trusted, not proved.")
+TB_E2 = ("Trusted: g++ 12.2 template instantiation; vsym (term-building scalar, path scheduler, SMT-LIB emitter, ~900 lines); z3 5.1 / cvc5 1.0.3 / z3 4.8.12; "
+         "machine arithmetic treated as mathematical (real arithmetic: no rounding, overflow, NaN); decimal literals read as the simplest rational rounding to them.")
+CLAIMED["C01"] = dict(engine="E2", technique="contracts (requires/ensures over the Mandel matrix map) on the unmodified stensor templates instantiated at a symbolic scalar; one SMT (QF_NRA) verification condition per path and clause",
+    text="Proof over the reals, N=1,2,3: trace, det, invert, square, symmetric_product, deviator, sigmaeq, contraction, change_basis/changeBasis, buildFromMatrix, Id, importTab/exportTab/importVoigt/import/write, "
+         "get/setComponent (with frame) and the diadic-product builders equal the same operation on the 3x3 symmetric matrix, for every input; the only discrepancy left is rounding.",
+    note=TB_E2 + " Rounding magnitude and tiny/huge-scale overflow are not covered.")
 
 NOT_APPLICABLE = {
     "C03": "floating-point tolerance statement about iterative eigen-solvers (Jacobi/QL/Cardano with cos/acos); no contract within reach of CBMC-C or the real-arithmetic VC generator expresses it",
